@@ -30,6 +30,10 @@ def run(ctx) -> None:
     from . import c16
 
     ctx.reuse("C17.open-config", c16.override_set)
+    from .common import finally_jump_rule
+
+    ctx.guard("C17.context", finally_jump_rule, "C17.context", ("BaseWorklist.__exit__", "BaseWorklist.save"),
+              "a refusal of save() (wrong extension, unwritable target) never reaches the caller, the with-block ends as if the file had been written")
 
 
 def _save(ctx, rule):
